@@ -2,7 +2,7 @@
    depend on the calls made before it on the same object, and the statements of C08 therefore hold
    at ANY point of ANY history. *)
 From Coq Require Import List NArith ZArith Bool Lia.
-From RPFT Require Import Base.Sexp Base.PyStr Base.Result Gen.Tables Cell.Cell Cell.CellFacts
+From RPFT Require Import Base.Sexp Base.PyStr Base.Result Gen.Tables Cell.Cell Cell.CellFacts Cell.CellParseFacts
   Tmpl.MiniJinja Cell.CellSession.
 Import ListNotations.
 Local Open Scope N_scope.
@@ -147,20 +147,28 @@ Proof.
   rewrite show_plain_cell, (parse_string_roundtrip s Hs). reflexivity.
 Qed.
 
-(* a nested list survives join + parse, trimmed, when the joined text has no surrounding whitespace
-   (parse strips the CELL before it splits; see list_parse_roundtrip_in_history for the statement
-   with the condition on the value instead) *)
+(* a nested list whose lists do not end in a BLANK string survives join + parse, trimmed (parse strips the CELL
+   before it splits: CellParseFacts.list_parse_roundtrip) *)
 Theorem list_roundtrip_in_history st pre post octx v txt :
-  wfb v = true -> join_from_lists 0 v = Some txt -> strip txt = txt -> fast_path octx txt = true ->
+  wfb v = true -> wfb (trim v) = true -> join_from_lists 0 v = Some txt -> fast_path octx txt = true ->
   nth_error (snd (cp_run st (pre ++ OpParse octx (plain_cell txt) :: post))) (length pre)
   = Some (RCell (Ok (PNv (trim v)))).
 Proof.
-  intros Hw Hj Hs Hf. rewrite cp_history_independent. cbn [cp_apply]. unfold parse_m.
+  intros Hw Ht Hj Hf. rewrite cp_history_independent. cbn [cp_apply]. unfold parse_m.
   rewrite parse_fast by (rewrite show_plain_cell; exact Hf).
-  rewrite show_plain_cell, Hs.
-  destruct (list_roundtrip v Hw) as (t & J & P). rewrite Hj in J. injection J as J. subst t.
+  rewrite show_plain_cell.
+  destruct (list_parse_roundtrip v Hw Ht) as (t & J & P). rewrite Hj in J. injection J as J. subst t.
   rewrite P. reflexivity.
 Qed.
+
+(* the second condition cannot be dropped: ["a", " "] is well-formed, its joined text "a| " is stripped to "a|" *)
+Example parse_needs_nonblank_last :
+  let v := Lst [Str [97]; Str [32]] in
+  wfb v = true /\ wfb (trim v) = false
+  /\ join_from_lists 0 v = Some [97; 124; 32]
+  /\ split_into_lists [97; 124; 32] = trim v
+  /\ split_into_lists (strip [97; 124; 32]) = Lst [Str [97]].
+Proof. vm_compute. repeat split; reflexivity. Qed.
 
 (* string or list is decided by the text of the cell, at any point of a history *)
 Theorem no_sep_is_string_in_history st pre post octx s :
